@@ -15,9 +15,9 @@ def multiGoC (C : NewickCodec) : List (Txt × Bool) → Txt → Nat → List Rec
   | (ch, pre) :: r, acc, id =>
     let ln := acc ++ ch
     if !pre && lastNonBlank ln == ';' then
-      match C.parse ln with
-      | none => [⟨id, .err⟩]
-      | some t => ⟨id, .ok t⟩ :: multiGoC C r [] (id + 1)
+      match (chunkGo C (ln.length + 1) ln id).2 with
+      | none => (chunkGo C (ln.length + 1) ln id).1
+      | some nid => (chunkGo C (ln.length + 1) ln id).1 ++ multiGoC C r [] nid
     else multiGoC C r ln id
 
 /-- `cs` is a way ReadLine may deliver the line `l`: pieces that concatenate to `l`, all flagged
@@ -30,9 +30,9 @@ theorem multiGoC_line (C : NewickCodec) (l : Txt) (cs : List (Txt × Bool)) (h :
     (rest : List (Txt × Bool)) (acc : Txt) (id : Nat) :
     multiGoC C (cs ++ rest) acc id =
       (if lastNonBlank (acc ++ l) == ';' then
-        match C.parse (acc ++ l) with
-        | none => [⟨id, .err⟩]
-        | some t => ⟨id, .ok t⟩ :: multiGoC C rest [] (id + 1)
+        match (chunkGo C ((acc ++ l).length + 1) (acc ++ l) id).2 with
+        | none => (chunkGo C ((acc ++ l).length + 1) (acc ++ l) id).1
+        | some nid => (chunkGo C ((acc ++ l).length + 1) (acc ++ l) id).1 ++ multiGoC C rest [] nid
       else multiGoC C rest (acc ++ l) id) := by
   induction h generalizing acc with
   | last l => simp [multiGoC]
@@ -56,9 +56,9 @@ theorem multiGoC_eq (C : NewickCodec) (ls : List Txt) (stream : List (Txt × Boo
     simp only [multiGo]
     by_cases hs : (lastNonBlank (acc ++ l) == ';') = true
     · simp only [hs, if_true]
-      cases C.parse (acc ++ l) with
+      cases (chunkGo C ((acc ++ l).length + 1) (acc ++ l) id).2 with
       | none => rfl
-      | some t => simp only [ih]
+      | some nid => simp only [ih]
     · simp only [hs, Bool.false_eq_true, if_false, ih]
 
 end Gotree.C13
